@@ -177,7 +177,8 @@ def wrappers_part(job, r):
     the empty document included."""
     from checks import c04
     from checks.c18 import MAGIC, hdr, cert_rec, pub_rec, sig_rec
-    exe, env, work, seed, n, w = job
+    exe, env, work, seed, n, w = job[:6]
+    big = list(job[6]) if len(job) > 6 else []
     rng = random.Random(seed)
     state = {}
 
@@ -243,6 +244,19 @@ def wrappers_part(job, r):
                 if (d == data) != (q.rc == 0) or (d != data and q.rc != VERIFICATION_FAILURE):
                     r.viol('wrappers:verifyDocument:%s:rc=%#x' % (dname if d != data else 'same', q.rc), 'KSI_Signature_verifyDocument (general policy OK for the signature itself) with document variant %s (%d bytes; signed document %d bytes): rc=%#x' % (dname, len(d), len(data), q.rc),
                            setup + 'verify 0 0 general api=document data=%s' % kexec.hx(d))
+            # the signed data followed by 2^32 zero octets (and neighbouring counts), handed over in one call: another document
+            while big and q.rc is not None:
+                z = big.pop()
+                q = c('verify 0 0 general api=document data=%s zeros=%d' % (kexec.hx(data), z))
+                r.observe(('wrapper-document', 'zeros-appended', z >> 31, q.rc))
+                if q.rc == -2:
+                    r.count('bigdoc_mapping_not_available')
+                elif q.rc != VERIFICATION_FAILURE:
+                    r.viol('wrappers:verifyDocument:signed-data-followed-by-%s-zero-octets:rc=%#x' % ('2^32' if z == 1 << 32 else 'k*2^32' if z % (1 << 32) == 0 else 'many', q.rc),
+                           'KSI_Signature_verifyDocument with the signed data followed by %d zero octets (one call): rc=%#x, expected KSI_VERIFICATION_FAILURE' % (z, q.rc),
+                           setup + 'verify 0 0 general api=document data=%s zeros=%d' % (kexec.hx(data), z))
+                else:
+                    r.count('bigdoc_other_document_refused')
         c('sigfree 0')
         c('ctxfree 0')
     pool.check_exit(None, r, sess.ex)
@@ -260,14 +274,16 @@ def run(ctx):
     ctx.rule = ('honest signatures (all sibling kinds, RFC3161 legacy ones, first-link corrections 0..100) x document hashes {equal, single-bit flips '
                 '(all bits for every 10th signature), same digest under another algorithm id of equal length, other algorithm} x levels '
                 '{0,c-1,c,c+1,255,256,2^32-1,2^32,2^32+c,2^64-1} x 6 verifying policies x entry points {SignatureVerifier_verify, '
-                'verifyWithPolicy with/without context, verifyDataHash, verifyDocument}; distinct = (policy, hash variant, level class, outcome)')
+                'verifyWithPolicy with/without context, verifyDataHash, verifyDocument}; verifyDocument with the signed data followed by 2^32 (thorough: 2^31, 2^32-1, 2^32+1, 2^33) zero octets handed over in one call; distinct = (policy, hash variant, level class, outcome)')
     ctx.assumptions = ['reference generator vlib/gen.py', 'anchors for key/calendar/publications-file policies are absent here (baseline NA); the mismatch verdicts do not depend on them',
                        'ASan+UBSan build']
     from checks import c04
     w = c04.World(os.path.join(ctx.work, 'pki'))
-    pool.run(ctx, dispatch, [(exe, ctx.env(), ctx.work, ctx.seed * 100 + i, nsig) for i in range(16)] + [('wrappers', exe, ctx.env(), ctx.work, ctx.seed * 100 + 50 + i, max(6, nsig // 4), w) for i in range(4)])
+    bigs = [[1 << 32], [], [], []] if ctx.tier == 'quick' else [[1 << 32, (1 << 32) - 1], [2 << 32], [(1 << 32) + 1], [1 << 31]]
+    pool.run(ctx, dispatch, [(exe, ctx.env(), ctx.work, ctx.seed * 100 + i, nsig) for i in range(16)] + [('wrappers', exe, ctx.env(), ctx.work, ctx.seed * 100 + 50 + i, max(6, nsig // 4), w, bigs[i]) for i in range(4)])
     c = ctx.counters
     if not ctx.violations and not ctx.known_printed:
         ctx.require(c.get('outcome_FAIL/GEN-01', 0) > 100 and c.get('outcome_FAIL/GEN-03', 0) > 20 and c.get('outcome_FAIL/GEN-04', 0) > 20, 'GEN-01/03/04 observed')
         ctx.require(c.get('wrappers_baseline_ok', 0) >= 20 and c.get('wrappers_document_same_ok', 0) >= 10 and c.get('wrappers_document_other_refused', 0) >= 50, 'convenience entry points observed with a positive baseline')
+        ctx.require(c.get('bigdoc_other_document_refused', 0) >= 1, 'a document of 2^32 octets and more in one call observed')
         ctx.require(c.get('baseline_userpub_OK', 0) > 5 and c.get('baseline_internal_OK', 0) > 50, 'OK baselines observed')
